@@ -136,6 +136,102 @@ func guard(f func() string) (res string) {
 	return f()
 }
 
+// deriveAlias builds two operands that alias each other in memory out of one private copy of full.
+//   sub:i:j:k     a = base[i:j], b = base[i:k]            same first element, different lengths (prefix related)
+//   ovl:i:j:i2:k  a = base[i:j], b = base[i2:k]           overlapping windows of one backing array
+//   same:i:j      a = b = base[i:j]                       the same slice twice
+//   clone:i:j     a = base[i:j], b = a.Clone()            equal values, disjoint memory
+//   val:i:j       a = base[i:j], b = fresh slice of the same Component structs (shared Val buffers)
+//   cap:i:j       a = base[i:j], b = append(a, base[0])   written in place into a's spare capacity when j < len(base)
+func deriveAlias(shape string, full enc.Name) (a, b enc.Name, ok bool) {
+	f := strings.Split(shape, ":")
+	base := full.Clone()
+	num := func(k int) int {
+		if k >= len(f) {
+			return -1
+		}
+		v, err := strconv.Atoi(f[k])
+		if err != nil {
+			return -1
+		}
+		return v
+	}
+	in := func(i, j int) bool { return 0 <= i && i <= j && j <= len(base) }
+	switch f[0] {
+	case "sub":
+		i, j, k := num(1), num(2), num(3)
+		if len(f) != 4 || !in(i, j) || !in(i, k) {
+			return nil, nil, false
+		}
+		return base[i:j], base[i:k], true
+	case "ovl":
+		i, j, i2, k := num(1), num(2), num(3), num(4)
+		if len(f) != 5 || !in(i, j) || !in(i2, k) {
+			return nil, nil, false
+		}
+		return base[i:j], base[i2:k], true
+	case "same", "clone", "val", "cap":
+		i, j := num(1), num(2)
+		if len(f) != 3 || !in(i, j) {
+			return nil, nil, false
+		}
+		a = base[i:j]
+		switch f[0] {
+		case "same":
+			return a, a, true
+		case "clone":
+			return a, a.Clone(), true
+		case "val":
+			b = make(enc.Name, len(a))
+			copy(b, a)
+			return a, b, true
+		default:
+			if len(base) == 0 {
+				return nil, nil, false
+			}
+			return a, append(a, base[0]), true
+		}
+	}
+	return nil, nil, false
+}
+
+// apair: every relational call family on operands that alias in memory; the answers must depend on the values only
+func (e *emitter) apair(shape string, full enc.Name) {
+	a, b, ok := deriveAlias(shape, full)
+	if !ok {
+		fmt.Fprintf(e.w, "BADINPUT APAIR\n")
+		return
+	}
+	e.count("APAIR-" + strings.SplitN(shape, ":", 2)[0])
+	obs := guard(func() string {
+		o := fmt.Sprintf("%d %s %s %s %d %s %s %s", a.Compare(b), b01(a.Equal(b)), b01(a.IsPrefix(b)), b01(b.IsPrefix(a)),
+			b.Compare(a), b01(a.Hash() == b.Hash()), hx(a.Bytes()), hx(b.Bytes()))
+		o += " " + hx([]byte(a.String())) + " " + hx([]byte(b.String()))
+		hok := true
+		for _, n := range []enc.Name{a, b} {
+			ph := n.PrefixHash()
+			if len(ph) != len(n)+1 {
+				hok = false
+				continue
+			}
+			for k := 0; k <= len(n); k++ {
+				if ph[k] != n[:k].Hash() || ph[k] != n[:k].Clone().Hash() {
+					hok = false
+				}
+			}
+		}
+		// the common prefix of a and b hashes identically from either operand
+		pa, pb := a.PrefixHash(), b.PrefixHash()
+		for k := 0; k < len(pa) && k < len(pb); k++ {
+			if a[:k].Equal(b[:k]) != (pa[k] == pb[k]) {
+				hok = false
+			}
+		}
+		return o + " " + b01(hok) + " " + nameStr(a) + " " + nameStr(b)
+	})
+	fmt.Fprintf(e.w, "APAIR %s %s %s\n", shape, nameStr(full), obs)
+}
+
 func (e *emitter) pair(a, b enc.Name) {
 	e.count("PAIR")
 	obs := guard(func() string {
@@ -388,6 +484,8 @@ func (e *emitter) reexec(line string) bool {
 	switch f[0] {
 	case "PAIR":
 		e.pair(parseName(f[1]), parseName(f[2]))
+	case "APAIR":
+		e.apair(f[1], parseName(f[2]))
 	case "TRIPLE":
 		e.triple(parseName(f[1]), parseName(f[2]), parseName(f[3]))
 	case "COMP":
@@ -678,7 +776,11 @@ func (g *gen) goodUri() string {
 		case 1:
 			sb.WriteString([]string{"sha256digest", "params-sha256"}[g.r.Intn(2)] + "=" + hex.EncodeToString(g.fill(g.r.Intn(4))))
 		case 2:
-			sb.WriteString(strconv.Itoa(g.r.Intn(70000)) + "=" + enc.Component{Typ: 8, Val: g.val()}.String())
+			v := g.val()
+			if len(v) > 300 {
+				v = v[:300]
+			}
+			sb.WriteString(strconv.Itoa(g.r.Intn(70000)) + "=" + enc.Component{Typ: 8, Val: v}.String())
 		case 3:
 			sb.WriteString("<" + []string{"", "seg=", "8=", "300=", "v="}[g.r.Intn(5)] + []string{"x", "tag", "", "a=b", "a/b"}[g.r.Intn(5)] + ">")
 		default:
@@ -799,6 +901,28 @@ func runSweeps(e *emitter, g *gen, thorough bool) {
 		e.pparse("/" + string([]byte{byte(b)}) + "a>")
 		e.cpparse("<a" + string([]byte{byte(b)}))
 	}
+	// aliased operands: every pair of windows of one backing array (5 components, two of them equal), every shape
+	for _, full := range []enc.Name{
+		{{Typ: 8, Val: []byte("a")}, {Typ: 8, Val: []byte("b")}, {Typ: 8, Val: []byte("a")}, {Typ: 8, Val: []byte("b")}, {Typ: 50, Val: []byte{1}}},
+		{{Typ: 8, Val: []byte{}}, {Typ: 8, Val: []byte{}}, {Typ: 8, Val: []byte{}}, {Typ: 8, Val: []byte{}}},
+	} {
+		n := len(full)
+		for i := 0; i <= n; i++ {
+			for j := i; j <= n; j++ {
+				for _, sh := range []string{"same", "clone", "val", "cap"} {
+					e.apair(fmt.Sprintf("%s:%d:%d", sh, i, j), full)
+				}
+				for k := i; k <= n; k++ {
+					e.apair(fmt.Sprintf("sub:%d:%d:%d", i, j, k), full)
+				}
+				for i2 := 0; i2 <= n; i2++ {
+					for k := i2; k <= n; k += 2 {
+						e.apair(fmt.Sprintf("ovl:%d:%d:%d:%d", i, j, i2, k), full)
+					}
+				}
+			}
+		}
+	}
 	lens := []int{0, 1, 2, 251, 252, 253, 254, 255, 256, 257, 65535, 65536}
 	if thorough {
 		lens = append(lens, 65537, 70000, 1<<16+300)
@@ -901,6 +1025,25 @@ func runGenerated(e *emitter, g *gen, ncases int, thorough bool) {
 			c = g.mutate(a)
 		}
 		e.triple(a, b, c)
+		// the same calls on operands that alias in memory
+		{
+			saved := g.huge
+			g.huge = 0
+			full := g.name(true)
+			for len(full) < 3 {
+				full = append(full, g.comp(false))
+			}
+			g.huge = saved
+			n := len(full)
+			i := g.r.Intn(n)
+			j := i + g.r.Intn(n-i+1)
+			k := i + g.r.Intn(n-i+1)
+			e.apair(fmt.Sprintf("sub:%d:%d:%d", i, j, k), full)
+			e.apair(fmt.Sprintf("sub:0:%d:%d", n, 1+g.r.Intn(n-1)), full) // the longer operand first
+			i2 := g.r.Intn(n)
+			e.apair(fmt.Sprintf("ovl:%d:%d:%d:%d", i, j, i2, i2+g.r.Intn(n-i2+1)), full)
+			e.apair(fmt.Sprintf("%s:%d:%d", []string{"same", "clone", "val", "cap"}[g.r.Intn(4)], i, j), full)
+		}
 		if len(a) > 0 && len(b) > 0 {
 			e.comp(a[g.r.Intn(len(a))], b[g.r.Intn(len(b))])
 			cb := a[g.r.Intn(len(a))].Bytes()
